@@ -25,6 +25,16 @@ package api
 //@   ensures err != nil ==> storeDom == old(storeDom) && storeVal == old(storeVal)
 //@   modifies storeDom, storeVal
 
+// A full listing (empty key, with prefix): every listed record is the stored value of the key its task and message id
+// give (records are only ever written under that key, by the update functions of core/meta), and every stored record
+// is listed.  Assumed contract of both store implementations.
+//@ spec metaKeyOf(v MetaMsg) string = "task_msg/" + v.Base.TaskID + "/" + v.Base.MsgID
+//@ trusted func (ReplicateStore).Get
+//@   params recv ctx key withPrefix
+//@   ensures err == nil && key == "" && withPrefix ==> (forall i int :: {result0[i]} 0 <= i && i < len(result0) ==> metaKeyOf(result0[i]) in storeDom && storeVal[metaKeyOf(result0[i])] == result0[i])
+//@   ensures err == nil && key == "" && withPrefix ==> (forall k string :: {storeVal[k]} k in storeDom ==> (exists i int :: {result0[i]} 0 <= i && i < len(result0) && metaKeyOf(result0[at(i)]) == k))
+//@   modifies fresh([]MetaMsg), fresh([]string), fresh(map[string]any)
+
 // IsReady: equal as sets for duplicate-free channel lists (assumed contract: the body sorts both
 // lists in place and compares them element-wise; lo.Union yields duplicate-free lists and target
 // channel lists are duplicate-free).  It permutes the two backing arrays, so their element sets stay.
